@@ -21,10 +21,10 @@ PID = "C06"
 
 OPS = {"mul2", "mul3", "add2", "add3", "pow", "abs", "min2", "max2", "exp"}
 CFG = {
-    "quick": dict(MaxLen=5, LeafNames={"n0", "n2", "nh", "m", "s", "q0m", "q2", "xs", "ts", "ks", "dft", "dLq"},
+    "quick": dict(MaxLen=5, LeafNames={"n0", "n2", "nh", "nan", "m", "s", "q0m", "q2", "xs", "ts", "ks", "qang", "dft", "dLq"},
                   OpNames={"mul2", "add2", "add3", "pow", "abs", "min2", "exp", "gapp"}),
     "thorough": dict(MaxLen=5, LeafNames={"n0", "n1", "n2", "n3", "nm1", "nh", "oo", "nan", "m", "km", "s", "kg", "q2m", "q0",
-                                          "q0m", "qoos", "q2", "xs", "ys", "ts", "ks", "ps", "ft", "dft", "d2ft", "dgxt", "dLq"},
+                                          "q0m", "qoos", "q2", "xs", "ys", "ts", "ks", "phis", "qang", "ps", "ft", "dft", "d2ft", "dgxt", "dLq"},
                      OpNames=OPS | {"gapp"}),
 }
 DEEP = {
@@ -51,6 +51,8 @@ def _init():
     y = Symbol("y", units.length)
     t = Symbol("t", units.time)
     k = Symbol("k")
+    from sympy.physics.units.definitions.dimension_definitions import angle as angle_type
+    phi = Symbol("phi", angle_type)
     p = sp.Symbol("p")
     f = Function("f", [t], units.length)
     g = Function("g", [x, t], units.mass * units.length)
@@ -63,15 +65,16 @@ def _init():
     gfun = Function("G", None, units.energy)
     leaves.update({
         "q2": Quantity(2), "q0m": Quantity(0, dimension=units.length), "qoos": Quantity(sp.oo, dimension=units.time),
-        "xs": x, "ys": y, "ts": t, "ks": k, "ps": p, "ft": ft, "dft": dft, "d2ft": d2ft, "dgxt": dgxt, "dLq": dlq,
+        "xs": x, "ys": y, "ts": t, "ks": k, "phis": phi, "ps": p, "ft": ft, "dft": dft, "d2ft": d2ft, "dgxt": dgxt, "dLq": dlq,
     })
     global _GFUN  # pylint: disable=global-statement
     _GFUN = gfun
     _L = leaves
-    _ASSIGN = {x: sp.Integer(3), y: sp.Integer(5), t: sp.Integer(7), k: sp.Integer(2), p: sp.Integer(4),
+    _ASSIGN = {x: sp.Integer(3), y: sp.Integer(5), t: sp.Integer(7), k: sp.Integer(2), phi: sp.Integer(2), p: sp.Integer(4),
                ft: sp.Integer(11), dft: sp.Integer(13), d2ft: sp.Integer(-2), dgxt: sp.Integer(3), dlq: sp.Integer(19)}
     m, s_, kg = units.meter, units.second, units.kilogram
     _QSUB = {x: Quantity(3 * m), y: Quantity(5 * m), t: Quantity(7 * s_), k: Quantity(2), p: Quantity(4),
+             phi: Quantity(2, dimension=angle_type),
              ft: Quantity(11 * m), dft: Quantity(13 * m / s_), d2ft: Quantity(-2 * m / s_**2),
              dgxt: Quantity(3 * kg / s_), dlq: Quantity(19 * units.joule / m)}
 
@@ -172,6 +175,21 @@ def replay_one(case):
             continue
         except Exception as e:  # pylint: disable=broad-except
             obs = f"{type(e).__name__}: {str(e)[:100]}"
+        if case.get("ao"):
+            # an exponent of pure angle dimension: whether inference reports it is left open by the statement,
+            # but IF inference succeeds, construction on quantities must succeed as well (last sentence of C06)
+            if obs == "ok" and mode == "asis":
+                try:
+                    with time_limit(5):
+                        Quantity(sp.sympify(expr).xreplace(_QSUB))
+                except HardTimeout:
+                    out.append((mode, "outside", "diagram: Quantity(...) timed out"))
+                except Exception as e:  # pylint: disable=broad-except
+                    out.append((mode, "violation", f"diagram: inference accepted an exponent of angle dimension (dim={qc_common.s_(odim)}) "
+                                                   f"but Quantity(substituted) raised {type(e).__name__}: {str(e)[:100]}"))
+            else:
+                out.append((mode, "outside", "exponent of pure angle dimension: verdict of inference left open by the statement"))
+            continue
         if exp_c == "err":
             if obs == "ok":
                 out.append((mode, "violation", f"model reports an error, inference returned dim={qc_common.s_(odim)}"))
